@@ -28,7 +28,7 @@ Definition success (o : observed) : bool :=
 
 (* split on whatever the goal still branches on *)
 Ltac unfold_defs :=
-  unfold authenticate, p_token, p_code, p_refresh, p_cc, p_te, p_bearer, p_device, p_introspect, p_revoke,
+  unfold authenticate, eff_pres, p_token, p_code, p_refresh, p_cc, p_te, p_bearer, p_device, p_introspect, p_revoke,
     p_device_authz, l_token, l_with_client, l_parse, l_verify_client, l_introspect, l_revoke, l_device_authz, nobody_reg, names_nobody,
     private_jwt, by_secret, client_id_from_request, device_client_authenticated, parse_creds, secret_check, cc_secret_check, secret_ok,
     cc_secret_ok, storage_secret_ok, assertion_opt_ok, assertion_ok, nonempty, bearer_ok, r4, r5, read_grant, visible, seen, src_dispatch_p, src_dispatch_l,
@@ -61,5 +61,5 @@ Ltac split_goal :=
   cbn; try reflexivity; try discriminate; try congruence.
 
 Ltac open_input i :=
-  destruct i as [r e c rg p g pl pv]; destruct pl as [gp cp ap]; destruct c as [fpost fpk fref ccc cte cdev cjp];
+  destruct i as [r e c rg p g pl pv]; destruct pl as [gp cp ap]; destruct c as [fpost fpk fref ccc cte cdev cjp csub];
   destruct rg as [known meth app gs key].
